@@ -64,6 +64,9 @@ def finish(run, mod):
             known_hits.setdefault(hit["id"], []).append(f)
         else:
             violations.append(f)
+    if os.environ.get("VERIF_DUMP_FAILS"):
+        for secname, idx, case, info in sorted(run.failures, key=lambda f: (order.get(f[0], 99), f[1])):
+            print("FAIL %s sig=%s case=%s" % (secname, info.get("sig"), engine.jdump(case)[:300]))
     for kid, fs in known_hits.items():
         kf = [k for k in findings if k["id"] == kid][0]
         print("KNOWN-FINDING: property=%s %s (%s; %d cases in this run, e.g. %s)" % (
